@@ -38,21 +38,6 @@ Definition trig_create_over (a : astate) (o : op) : bool :=
   | _ => false
   end.
 
-(* C16.stale_dirty_index: after the step the journal's address->index map no longer matches
-   the dirties slice (deleteDirty removed an element that was not the last one) *)
-Definition jidx_ok (a : astate) : bool :=
-  forallb (fun e : addr * nat => match a_dirties a !! e.2 with Some d => (d.1 =? e.1)%N | None => false end)
-          (map_to_list (a_jidx a)).
-Definition trig_stale (a : astate) (o : op) : bool :=
-  match o with
-  | RevertToSnapshot id =>
-      match astep_opt a o with
-      | Some (_, a') => negb (jidx_ok a')
-      | None => match find_rev id (a_revs a) 0 with Some _ => true | None => false end   (* panic inside the revert *)
-      end
-  | _ => false
-  end.
-
 (* outside the contract of the interface (the interpreter checks CanTransfer before it moves value) *)
 Definition pre_violated (a : astate) (o : op) : bool :=
   match o with
@@ -89,12 +74,12 @@ Definition fin_okb (a : astate) : bool :=
 Definition fin_unchecked (a : astate) (o : op) : bool :=
   match o with Finalise | BlockCommit => negb (fin_okb a) | _ => false end.
 
-(* class of a step: 0 = none, 1..3 = known defect regions, 4 = outside the interface contract,
+(* class of a step: 0 = none, 1..2 = known defect regions (3 was C16.stale_dirty_index, repaired
+   by fix 4b2faa6), 4 = outside the interface contract,
    5 = the run-time side condition of the Finalise case is false *)
 Definition step_class (a : astate) (o : op) : nat :=
   if trig_residue a o then 1%nat
   else if trig_create_over a o then 2%nat
-  else if trig_stale a o then 3%nat
   else if pre_violated a o then 4%nat
   else if fin_unchecked a o then 5%nat
   else 0%nat.
@@ -214,23 +199,12 @@ Definition core_op (o : op) : bool :=
   | Snapshot | RevertToSnapshot _ | Finalise | BlockCommit | CreateAccount _
   | AlAddAddr _ | AlAddSlot _ _ | AlHasAddr _ | AlHasSlot _ _ | AddLog _ _ | GetLogs => true
   end.
-(* a revert that the adapter survives with its dirties index intact (complement of
-   C16.stale_dirty_index, which also covers the panic inside such a revert) *)
-Definition revert_fine (a : astate) (o : op) : bool :=
-  match o with
-  | RevertToSnapshot id =>
-      match find_rev id (a_revs a) 0 with
-      | None => true
-      | Some _ => match astep_opt a o with Some (_, a') => jidx_ok a' | None => false end
-      end
-  | _ => true
-  end.
 (* CreateAccount is in the proved core for accounts that do not exist yet (evm.create on a fresh
    address); re-creation over an existing account is covered by the correspondence only *)
 Definition create_fresh (a : astate) (o : op) : bool :=
   match o with CreateAccount x => negb (a_exists a x) | _ => true end.
 Definition pstep_ok (a : astate) (o : op) : bool :=
-  step_ok a o && core_op o && revert_fine a o && create_fresh a o.
+  step_ok a o && core_op o && create_fresh a o.
 Fixpoint pguardedb (a : astate) (ops : list op) : bool :=
   match ops with
   | [] => true
